@@ -494,6 +494,835 @@ theorem c07_switch_partial (s : State) (i : Nat) (v : Vault) (t : Nat) (hearly :
     (((s.apply (.announce i v t)).run evs).node i).vault = v :=
   (told_run i evs _ hk (c07_registration_partial s i v t hearly)).switched hu hh
 
+/-! ### (c) a beacon needs a threshold of members of the CURRENT group -/
+
+/-- `reg` maps an epoch (a polynomial) to the group it was dealt to; a vault is consistent with it when its group is the
+group of its epoch and its own share index is a member index -/
+def VOk (reg : Nat → Grp) (v : Vault) : Prop := v.grp = reg v.epoch ∧ ∃ m ∈ v.grp.members, m.index = v.index
+
+/-- every cached partial was made with the share of a member of the group of its epoch -/
+def HeldOk (reg : Nat → Grp) (held : Nat → Nat → Option Nat) : Prop :=
+  ∀ r k e, held r k = some e → ∃ m ∈ (reg e).members, m.index = k
+
+structure NodeOk (reg : Nat → Grp) (d : Node) : Prop where
+  vault : VOk reg d.vault
+  disk : VOk reg d.disk
+  pend : ∀ p, d.pend = some p → VOk reg p.vault
+  held : HeldOk reg d.held
+
+theorem heldOk_add {reg : Nat → Grp} {held : Nat → Nat → Option Nat} (h : HeldOk reg held) (r idx ep : Nat)
+    (hn : ∃ m ∈ (reg ep).members, m.index = idx) : HeldOk reg (addPartial held r idx ep) := by
+  intro r' k e he
+  unfold addPartial at he
+  by_cases hc : r' = r ∧ k = idx
+  · simp only [hc, and_self, if_true] at he
+    cases hx : held r idx with
+    | none => simp only [hx] at he; cases he; rw [hc.2]; exact hn
+    | some x => simp only [hx] at he; cases he; rw [hc.2]; exact h r idx _ hx
+  · simp only [hc, if_false] at he; exact h r' k e he
+
+theorem heldOk_flush {reg : Nat → Grp} {held : Nat → Nat → Option Nat} (h : HeldOk reg held) (r : Nat) : HeldOk reg (flush held r) := by
+  intro r' k e he
+  unfold flush at he
+  by_cases hc : r < r'
+  · simp only [hc, if_true] at he; exact h r' k e he
+  · simp only [hc, if_false] at he; cases he
+
+theorem nodeOk_frame {reg : Nat → Grp} {d d' : Node} (h : NodeOk reg d) (h1 : d'.vault = d.vault) (h2 : d'.disk = d.disk)
+    (h3 : d'.pend = d.pend) (h4 : HeldOk reg d'.held) : NodeOk reg d' :=
+  ⟨h1 ▸ h.vault, h2 ▸ h.disk, fun p hp => h.pend p (h3 ▸ hp), h4⟩
+
+theorem nodeOk_put {reg : Nat → Grp} {d : Node} (h : NodeOk reg d) (r : Nat) : NodeOk reg (d.put r) := by
+  unfold Node.put
+  by_cases hr : r = d.head + 1
+  · simp only [hr, if_true]
+    unfold Node.onStored
+    simp only [setHead_pend]
+    cases hp : d.pend with
+    | none => exact nodeOk_frame h rfl rfl rfl h.held
+    | some p =>
+      simp only
+      split
+      · exact nodeOk_frame h rfl rfl rfl h.held
+      · exact ⟨h.pend p hp, h.disk, (fun q hq => by cases hq), h.held⟩
+  · simp only [hr, if_false]; exact h
+
+theorem nodeOk_foldl_put {reg : Nat → Grp} : ∀ (l : List Nat) (d : Node), NodeOk reg d → NodeOk reg (l.foldl Node.put d) := by
+  intro l
+  induction l with
+  | nil => intro d h; exact h
+  | cons a tl ih => intro d h; exact ih _ (nodeOk_put h a)
+
+theorem nodeOk_appendTo {reg : Nat → Grp} {d : Node} (h : NodeOk reg d) (x : Nat) : NodeOk reg (d.appendTo x) := by
+  unfold Node.appendTo
+  have h1 := nodeOk_foldl_put (List.range' (d.head + 1) (x - d.head)) d h
+  exact nodeOk_frame h1 rfl rfl rfl (heldOk_flush h1.held _)
+
+theorem nodeOk_aggregate {reg : Nat → Grp} {d : Node} (h : NodeOk reg d) (B idx ep r : Nat)
+    (hn : ∃ m ∈ (reg ep).members, m.index = idx) : NodeOk reg (d.aggregate B idx ep r) := by
+  have ha := heldOk_add h.held r idx ep hn
+  rcases aggregate_cases B d idx ep r with ⟨_, he⟩ | ⟨_, _, he⟩ | ⟨_, _, _, x, he⟩ | ⟨_, _, _, P, he⟩ <;> rw [he]
+  · exact h
+  · exact nodeOk_frame h rfl rfl rfl ha
+  · exact nodeOk_frame h rfl rfl rfl (heldOk_flush ha r)
+  · have h1 : NodeOk reg (d.setHeld (flush (addPartial d.held r idx ep) r)) := nodeOk_frame h rfl rfl rfl (heldOk_flush ha r)
+    have h2 := nodeOk_put h1 r
+    exact nodeOk_frame h2 rfl rfl rfl h2.held
+
+theorem nodeOk_own {reg : Nat → Grp} {d : Node} (h : NodeOk reg d) : ∃ m ∈ (reg d.vault.epoch).members, m.index = d.vault.index := by
+  rw [← h.vault.1]; exact h.vault.2
+
+theorem nodeOk_tickStep {reg : Nat → Grp} {d : Node} (h : NodeOk reg d) (B i : Nat) : NodeOk reg (d.tickStep B i).1 := by
+  unfold Node.tickStep
+  by_cases hu : d.up = true
+  · simp only [hu, Bool.not_true, Bool.false_eq_true, if_false, Node.broadcast]
+    have h0 : NodeOk reg (d.setTick d.clock) := nodeOk_frame h rfl rfl rfl h.held
+    have h1 := nodeOk_aggregate h0 B (d.setTick d.clock).vault.index (d.setTick d.clock).vault.epoch (Gen.bnpRound d.clock d.head) (nodeOk_own h0)
+    split
+    · exact nodeOk_frame h1 rfl rfl rfl h1.held
+    · exact h1
+  · simp [hu]; exact h
+
+theorem nodeOk_fireStep {reg : Nat → Grp} {d : Node} (h : NodeOk reg d) (B i : Nat) : NodeOk reg (d.fireStep B i).1 := by
+  unfold Node.fireStep
+  by_cases hu : d.up = true
+  · simp only [hu, Bool.not_true, Bool.false_eq_true, if_false]
+    cases hp : d.pending with
+    | nil => exact h
+    | cons r rest =>
+      have h0 : NodeOk reg (d.setPending rest) := nodeOk_frame h rfl rfl rfl h.held
+      show NodeOk reg ((d.setPending rest).aggregate B _ _ (r + 1))
+      exact nodeOk_aggregate h0 B _ _ _ (nodeOk_own h0)
+  · simp [hu]; exact h
+
+theorem nodeOk_fireSteps {reg : Nat → Grp} (B i : Nat) : ∀ (c : Nat) (d : Node), NodeOk reg d → NodeOk reg (Node.fireSteps B i c d).1 := by
+  intro c
+  induction c with
+  | zero => intro d h; exact h
+  | succ c ih => intro d h; exact ih _ (nodeOk_fireStep h B i)
+
+theorem nodeOk_recvStep {reg : Nat → Grp} {d : Node} (h : NodeOk reg d) (B self : Nat) (reach : Bool) (m : Msg) :
+    NodeOk reg (d.recvStep B self reach m) := by
+  rcases recvStep_cases B self reach d m with ⟨he, _⟩ | ⟨_, _, ha, he⟩ <;> rw [he]
+  · exact h
+  · obtain ⟨⟨mem, hm, hi, _⟩, hep, _⟩ := c03_admitted_is_member self d m ha
+    refine nodeOk_aggregate h B _ _ _ ⟨mem, ?_, hi⟩
+    rw [hep, ← h.vault.1]; exact hm
+
+/-- the vaults an event hands out are consistent with the registry -/
+def Ev.ok (reg : Nat → Grp) : Ev → Prop
+  | .announce _ v _ => VOk reg v
+  | .join _ v => VOk reg v
+  | _ => True
+
+theorem nodeOk_act {reg : Nat → Grp} (s : State) (i : Nat) (F : Node → Node × List Msg)
+    (hF : NodeOk reg (s.node i) → NodeOk reg (F (s.node i)).1) (h : ∀ k, NodeOk reg (s.node k)) : ∀ k, NodeOk reg ((s.act i F).node k) := by
+  intro k
+  rw [act_node]
+  by_cases hk : k = i
+  · simp only [hk, if_true]; exact hF (h i)
+  · simp only [hk, if_false]; exact h k
+
+theorem nodeOk_recv {reg : Nat → Grp} (s : State) (m : Msg) (h : ∀ k, NodeOk reg (s.node k)) : ∀ k, NodeOk reg ((s.recv m).node k) :=
+  nodeOk_act s m.dst _ (fun h' => nodeOk_recvStep h' _ _ _ _) h
+
+theorem nodeOk_foldl_recv {reg : Nat → Grp} : ∀ (l : List Msg) (s : State), (∀ k, NodeOk reg (s.node k)) →
+    ∀ k, NodeOk reg ((l.foldl State.recv s).node k) := by
+  intro l
+  induction l with
+  | nil => intro s h; exact h
+  | cons m tl ih => intro s h; exact ih _ (nodeOk_recv s m h)
+
+theorem nodeOk_setNode {reg : Nat → Grp} (s : State) (i : Nat) (d : Node) (hd : NodeOk reg d) (h : ∀ k, NodeOk reg (s.node k)) :
+    ∀ k, NodeOk reg ((s.setNode i d).node k) := by
+  intro k
+  rw [setNode_node]
+  by_cases hk : k = i
+  · simp only [hk, if_true]; exact hd
+  · simp only [hk, if_false]; exact h k
+
+theorem heldOk_empty (reg : Nat → Grp) : HeldOk reg (fun _ _ => none) := fun _ _ _ he => by cases he
+
+theorem nodeOk_pull {reg : Nat → Grp} (s : State) (i : Nat) (h : ∀ k, NodeOk reg (s.node k)) : ∀ k, NodeOk reg ((s.pull i).node k) := by
+  unfold State.pull
+  split; · exact h
+  split; · exact h
+  split; · exact nodeOk_setNode s i _ (nodeOk_frame (h i) rfl rfl rfl (h i).held) h
+  split; · exact nodeOk_setNode s i _ (nodeOk_frame (h i) rfl rfl rfl (h i).held) h
+  · have h1 := nodeOk_appendTo (h i) (min (s.node i).syncTo (s.maxPeerHead i))
+    exact nodeOk_setNode s i _ (nodeOk_frame h1 rfl rfl rfl h1.held) h
+
+theorem nodeOk_apply {reg : Nat → Grp} (s : State) (ev : Ev) (hev : ev.ok reg) (h : ∀ k, NodeOk reg (s.node k)) :
+    ∀ k, NodeOk reg ((s.apply ev).node k) := by
+  cases ev with
+  | advance => intro k; exact nodeOk_frame (h k) rfl rfl rfl (h k).held
+  | tick i => exact nodeOk_act s i _ (fun h' => nodeOk_tickStep h' _ _) h
+  | fire i => exact nodeOk_act s i _ (fun h' => nodeOk_fireStep h' _ _) h
+  | deliver j =>
+    simp only [State.apply]
+    cases hm : s.msgs[j]? with
+    | none => exact h
+    | some m => exact nodeOk_recv _ m h
+  | drop j => exact h
+  | deliverAll => exact nodeOk_foldl_recv s.msgs _ h
+  | pull i => exact nodeOk_pull s i h
+  | stop i => exact nodeOk_setNode s i _ (nodeOk_frame (h i) rfl rfl rfl (heldOk_empty reg)) h
+  | restart i =>
+    simp only [State.apply, State.restart]
+    split
+    · exact h
+    · exact nodeOk_setNode s i _ ⟨(h i).disk, (h i).disk, (fun p hp => by cases hp), heldOk_empty reg⟩ h
+  | setConn c => exact h
+  | send m => exact h
+  | announce i v t =>
+    simp only [State.apply]
+    refine nodeOk_setNode s i _ ?_ h
+    unfold Node.announce
+    by_cases hu : (s.node i).up = true
+    · simp only [hu, Bool.not_true, Bool.false_eq_true, if_false]
+      by_cases hc : (s.cfg.lateSwitch && decide (Gen.transitionTarget t ≤ (s.node i).head)) = true
+      · simp only [hc, if_true]
+        exact ⟨hev, hev, (fun p hp => by cases hp), (h i).held⟩
+      · simp only [hc, if_false]
+        exact ⟨(h i).vault, hev, (fun p hp => by cases hp; exact hev), (h i).held⟩
+    · simp only [hu, Bool.not_false, if_true]
+      exact ⟨(h i).vault, hev, (h i).pend, (h i).held⟩
+  | join i v =>
+    simp only [State.apply, State.join]
+    split
+    · exact h
+    · exact nodeOk_setNode s i _ ⟨hev, hev, (fun p hp => by cases hp), heldOk_empty reg⟩ h
+
+/-- **Invariant of every run.** From a consistent state, after ANY finite list of events — including arbitrary packets
+put on the wire by anybody (`send`), deliveries in any order, stops, restarts, hand-overs of consistent vaults at any
+time — every cached partial of every node was made with the share of a member of the group of its epoch. -/
+theorem c07_held_members_run (reg : Nat → Grp) : ∀ (evs : List Ev) (s : State), (∀ ev ∈ evs, ev.ok reg) →
+    (∀ k, NodeOk reg (s.node k)) → ∀ k, NodeOk reg ((s.run evs).node k) := by
+  intro evs
+  induction evs with
+  | nil => intro s _ h; exact h
+  | cons e tl ih =>
+    intro s hev h
+    exact ih _ (fun ev hm => hev ev (by simp [hm])) (nodeOk_apply s e (hev e (by simp)) h)
+
+theorem nodeOk_init (reg : Nat → Grp) (cfg : Cfg) (n nIdx : Nat) (g : Grp) (hg : reg 0 = g) (h0 : ∃ m ∈ g.members, m.index = 0) :
+    ∀ k, NodeOk reg ((State.init cfg n nIdx g).node k) := by
+  intro k
+  simp only [State.init]
+  cases hf : g.members.find? (fun m => m.node == k) with
+  | none => exact ⟨⟨hg.symm, h0⟩, ⟨hg.symm, h0⟩, (fun p hp => by cases hp), heldOk_empty reg⟩
+  | some m =>
+    have hm : m ∈ g.members := List.mem_of_find?_eq_some hf
+    exact ⟨⟨hg.symm, m, hm, rfl⟩, ⟨hg.symm, m, hm, rfl⟩, (fun p hp => by cases hp), heldOk_empty reg⟩
+
+theorem aggregate_head_same_or_put (B : Nat) (d : Node) (idx ep r : Nat) (hne : (d.aggregate B idx ep r).head ≠ d.head) :
+    r = d.head + 1 ∧ d.vault.grp.thr ≤ valid B (addPartial d.held r idx ep) r d.vault.epoch := by
+  rcases aggregate_cases B d idx ep r with ⟨_, he⟩ | ⟨_, _, he⟩ | ⟨_, _, _, x, he⟩ | ⟨_, hv, hr, P, he⟩
+  · rw [he] at hne; exact absurd rfl hne
+  · rw [he] at hne; exact absurd rfl hne
+  · rw [he] at hne; exact absurd rfl hne
+  · exact ⟨hr, hv⟩
+
+/-- **A beacon needs `thr` distinct CURRENT members, with the threshold of the current vault.** Whenever the aggregator
+of a consistent node stores a round, its cache holds, for exactly that round, partials of at least `thr` pairwise
+distinct indices — `thr` being the threshold of the vault at this very iteration — each made with a share of the node's
+CURRENT epoch and each the index of a member of its CURRENT group. Old-share partials and non-member indices are not among
+them, whoever sent them. -/
+theorem c07_beacon_needs_new_members (reg : Nat → Grp) (B : Nat) (d : Node) (hok : NodeOk reg d) (idx ep r : Nat)
+    (hn : ∃ m ∈ (reg ep).members, m.index = idx) (hput : (d.aggregate B idx ep r).head ≠ d.head) :
+    r = d.head + 1 ∧ ∃ L : List Nat, L.Nodup ∧ d.vault.grp.thr ≤ L.length ∧
+      ∀ k ∈ L, addPartial d.held r idx ep r k = some d.vault.epoch ∧ ∃ m ∈ d.vault.grp.members, m.index = k := by
+  obtain ⟨hr, hv⟩ := aggregate_head_same_or_put B d idx ep r hput
+  refine ⟨hr, (List.range B).filter (fun k => addPartial d.held r idx ep r k == some d.vault.epoch), ?_, hv, ?_⟩
+  · exact List.Nodup.sublist List.filter_sublist List.nodup_range
+  · intro k hk
+    have hk' : addPartial d.held r idx ep r k = some d.vault.epoch := by
+      have := (List.mem_filter.mp hk).2; simpa using this
+    refine ⟨hk', ?_⟩
+    have := heldOk_add hok.held r idx ep hn r k _ hk'
+    rw [← hok.vault.1] at this
+    exact this
+
+/-! ### (b2) progress once a threshold of the new group holds the new vault -/
+
+theorem nodup_subset_length : ∀ (l₁ l₂ : List Nat), l₁.Nodup → (∀ x ∈ l₁, x ∈ l₂) → l₁.length ≤ l₂.length := by
+  intro l₁
+  induction l₁ with
+  | nil => intro l₂ _ _; simp
+  | cons a t ih =>
+    intro l₂ hn hs
+    have ha : a ∈ l₂ := hs a (by simp)
+    have hn' := List.nodup_cons.mp hn
+    have hsub : ∀ x ∈ t, x ∈ l₂.erase a := by
+      intro x hx
+      have hne : x ≠ a := fun h => hn'.1 (h ▸ hx)
+      exact (List.mem_erase_of_ne hne).mpr (hs x (by simp [hx]))
+    have h1 := ih (l₂.erase a) hn'.2 hsub
+    have h2 := List.length_erase_of_mem ha
+    have h3 : 0 < l₂.length := List.length_pos_of_mem ha
+    simp only [List.length_cons]
+    omega
+
+/-- if every index of a duplicate-free list has a partial of epoch `e` on `r` in the cache, `Recover` has that many -/
+theorem valid_ge (B : Nat) (held : Nat → Nat → Option Nat) (r e : Nat) (L : List Nat) (hn : L.Nodup)
+    (h : ∀ k ∈ L, k < B ∧ held r k = some e) : L.length ≤ valid B held r e := by
+  unfold valid
+  apply nodup_subset_length L _ hn
+  intro x hx
+  simp [List.mem_filter, h x hx]
+
+theorem put_next (d : Node) (r : Nat) (h : r = d.head + 1) : (d.put r).head = r := by
+  unfold Node.put
+  simp only [h, if_true]
+  rw [(onStored_frame _ _).2.1]; rfl
+
+theorem aggregate_frame (B : Nat) (d : Node) (idx ep r : Nat) :
+    (d.aggregate B idx ep r).up = d.up ∧ (d.aggregate B idx ep r).clock = d.clock ∧ d.head ≤ (d.aggregate B idx ep r).head := by
+  rcases aggregate_cases B d idx ep r with ⟨_, he⟩ | ⟨_, _, he⟩ | ⟨_, _, _, x, he⟩ | ⟨_, _, _, P, he⟩ <;> rw [he]
+  · exact ⟨rfl, rfl, Nat.le_refl _⟩
+  · exact ⟨rfl, rfl, Nat.le_refl _⟩
+  · exact ⟨rfl, rfl, Nat.le_refl _⟩
+  · have := put_frame (d.setHeld (flush (addPartial d.held r idx ep) r)) r
+    exact ⟨this.1, this.2.1, this.2.2.2.2.2.2.2.1⟩
+
+private theorem foldPut_head : ∀ (len : Nat) (d : Node),
+    ((List.range' (d.head + 1) len).foldl Node.put d).head = d.head + len := by
+  intro len
+  induction len with
+  | zero => intro d; simp
+  | succ k ih =>
+    intro d
+    rw [List.range'_succ, List.foldl_cons]
+    have h1 : (d.put (d.head + 1)).head = d.head + 1 := put_next d _ rfl
+    have := ih (d.put (d.head + 1))
+    rw [h1] at this
+    rw [this]; omega
+
+private theorem foldPut_fields : ∀ (l : List Nat) (d : Node),
+    (l.foldl Node.put d).up = d.up ∧ (l.foldl Node.put d).clock = d.clock := by
+  intro l
+  induction l with
+  | nil => intro d; simp
+  | cons a t ih =>
+    intro d
+    simp only [List.foldl_cons]
+    have := ih (d.put a)
+    have hp := put_frame d a
+    exact ⟨this.1.trans hp.1, this.2.trans hp.2.1⟩
+
+theorem appendTo_frame (d : Node) (t : Nat) :
+    (d.appendTo t).head = d.head + (t - d.head) ∧ (d.appendTo t).up = d.up ∧ (d.appendTo t).clock = d.clock := by
+  unfold Node.appendTo
+  exact ⟨by simp [foldPut_head], (foldPut_fields _ d).1, (foldPut_fields _ d).2⟩
+
+@[simp] theorem act_n (s : State) (i : Nat) (F) : (s.act i F).n = s.n := rfl
+@[simp] theorem act_nIdx (s : State) (i : Nat) (F) : (s.act i F).nIdx = s.nIdx := rfl
+@[simp] theorem act_conn (s : State) (i : Nat) (F) : (s.act i F).conn = s.conn := rfl
+@[simp] theorem act_msgs (s : State) (i : Nat) (F) : (s.act i F).msgs = s.msgs ++ (F (s.node i)).2 := rfl
+@[simp] theorem setNode_n (s : State) (i : Nat) (d : Node) : (s.setNode i d).n = s.n := rfl
+@[simp] theorem setNode_nIdx (s : State) (i : Nat) (d : Node) : (s.setNode i d).nIdx = s.nIdx := rfl
+@[simp] theorem setNode_conn (s : State) (i : Nat) (d : Node) : (s.setNode i d).conn = s.conn := rfl
+@[simp] theorem setNode_msgs (s : State) (i : Nat) (d : Node) : (s.setNode i d).msgs = s.msgs := rfl
+
+private theorem flatMap_congr' {α β : Type} (f g : α → List β) : ∀ (l : List α), (∀ i ∈ l, f i = g i) → l.flatMap f = l.flatMap g := by
+  intro l
+  induction l with
+  | nil => intro _; rfl
+  | cons a t ih =>
+    intro h
+    simp only [List.flatMap_cons]
+    rw [h a (by simp), ih (fun i hi => h i (by simp [hi]))]
+
+theorem foldl_act (G : Nat → Nat → Node → Node × List Msg) :
+    ∀ (l : List Nat) (s : State), l.Nodup →
+      (l.foldl (fun s i => s.act i (G s.nIdx i)) s).n = s.n ∧
+      (l.foldl (fun s i => s.act i (G s.nIdx i)) s).nIdx = s.nIdx ∧
+      (l.foldl (fun s i => s.act i (G s.nIdx i)) s).conn = s.conn ∧
+      (∀ k, (l.foldl (fun s i => s.act i (G s.nIdx i)) s).node k =
+        if k ∈ l then (G s.nIdx k (s.node k)).1 else s.node k) ∧
+      (l.foldl (fun s i => s.act i (G s.nIdx i)) s).msgs = s.msgs ++ l.flatMap (fun i => (G s.nIdx i (s.node i)).2) := by
+  intro l
+  induction l with
+  | nil => intro s _; simp
+  | cons a t ih =>
+    intro s hn
+    have hn' := List.nodup_cons.mp hn
+    obtain ⟨h1, h2, h3, h4, h5⟩ := ih (s.act a (G s.nIdx a)) hn'.2
+    simp only [List.foldl_cons]
+    refine ⟨by rw [h1]; rfl, by rw [h2]; rfl, by rw [h3]; rfl, ?_, ?_⟩
+    · intro k
+      rw [h4 k]
+      simp only [act_nIdx, act_node]
+      by_cases hk : k = a
+      · subst hk; simp [hn'.1]
+      · simp [hk]
+    · rw [h5]
+      simp only [act_nIdx, act_msgs, List.flatMap_cons, List.append_assoc]
+      congr 2
+      apply flatMap_congr'
+      intro i hi
+      have : i ≠ a := fun h => hn'.1 (h ▸ hi)
+      simp [act_node, this]
+
+/-- node j's view of a batch of deliveries: only the messages addressed to it matter -/
+theorem foldl_recv (j : Nat) : ∀ (l : List Msg) (s : State),
+    (l.foldl State.recv s).n = s.n ∧ (l.foldl State.recv s).nIdx = s.nIdx ∧ (l.foldl State.recv s).conn = s.conn ∧
+    (l.foldl State.recv s).node j =
+      l.foldl (fun d m => if m.dst = j then d.recvStep s.nIdx j (s.conn m.src m.dst) m else d) (s.node j) := by
+  intro l
+  induction l with
+  | nil => intro s; simp
+  | cons m t ih =>
+    intro s
+    obtain ⟨h1, h2, h3, h4⟩ := ih (s.recv m)
+    simp only [List.foldl_cons]
+    refine ⟨by rw [h1]; rfl, by rw [h2]; rfl, by rw [h3]; rfl, ?_⟩
+    rw [h4]
+    have e2 : (s.recv m).nIdx = s.nIdx := rfl
+    have e3 : (s.recv m).conn = s.conn := rfl
+    rw [e2, e3]
+    congr 1
+    by_cases hj : m.dst = j
+    · subst hj; simp [State.recv, act_node]
+    · have : j ≠ m.dst := fun h => hj h.symm
+      simp [State.recv, act_node, this, hj]
+
+/-- the partial of `m` would pass `ProcessPartialBeacon` at a node `self` that sits at head `h` with vault `V` -/
+def Adm (V : Vault) (h self : Nat) (m : Msg) : Prop :=
+  m.round = h + 1 ∧ (∃ mem, V.grp.node? m.idx = some mem ∧ mem.node ≠ self) ∧ m.epoch = V.epoch ∧ m.idx ≠ V.index
+
+theorem admit_of_adm {V : Vault} {h c self : Nat} {d : Node} {m : Msg} (hh : d.head = h) (hv : d.vault = V) (hcl : d.clock = c)
+    (hc : h < c) (ha : Adm V h self m) : d.admit self m = .admitted := by
+  obtain ⟨hr, ⟨mem, hm, hne⟩, he, hi⟩ := ha
+  unfold Node.admit
+  simp only [Gen.ppbFuture, Gen.ppbPast, hh, hv, hcl, hr, hm]
+  have h1 : ¬ (c + 1 < h + 1) := by omega
+  have h2 : ¬ (h + 1 ≤ h) := by omega
+  simp [h1, h2, hne, he, hi]
+
+/-- progress invariant of one node of the healthy side while round `h + 1` is being signed: either it already stores
+`h + 1`, or it sits at `h` with the vault `V`, `Recover` does not have enough yet, nothing above `h + 1` is cached, every
+cached partial on `h + 1` is of the current epoch, and the partial of every index in `S` is there -/
+def Prog (B h c : Nat) (V : Vault) (S : Nat → Prop) (d : Node) : Prop :=
+  d.up = true ∧ d.clock = c ∧
+  (h + 1 ≤ d.head ∨
+    (d.head = h ∧ d.vault = V ∧ valid B d.held (h + 1) V.epoch < V.grp.thr ∧ (∀ r k x, d.held r k = some x → r ≤ h + 1) ∧
+      (∀ k x, d.held (h + 1) k = some x → x = V.epoch) ∧ ∀ k, S k → d.held (h + 1) k = some V.epoch))
+
+theorem Prog.weaken {B h c : Nat} {V : Vault} {S S' : Nat → Prop} {d : Node} (hp : Prog B h c V S d) (hs : ∀ k, S' k → S k) :
+    Prog B h c V S' d := by
+  obtain ⟨hu, hc, hd⟩ := hp
+  refine ⟨hu, hc, ?_⟩
+  rcases hd with hd | ⟨h1, h2, h3, h4, h5, h6⟩
+  · exact Or.inl hd
+  · exact Or.inr ⟨h1, h2, h3, h4, h5, fun k hk => h6 k (hs k hk)⟩
+
+theorem Prog.head_ge {B h c : Nat} {V : Vault} {S : Nat → Prop} {d : Node} (hp : Prog B h c V S d) : h ≤ d.head := by
+  rcases hp.2.2 with hd | ⟨h1, _⟩ <;> omega
+
+theorem addPartial_at_none (held : Nat → Nat → Option Nat) (r idx ep : Nat) (h : held r idx = none) :
+    addPartial held r idx ep r idx = some ep := by
+  simp [addPartial, h]
+
+theorem addPartial_at_some (held : Nat → Nat → Option Nat) (r idx ep x : Nat) (h : held r idx = some x) :
+    addPartial held r idx ep r idx = some x := by
+  simp [addPartial, h]
+
+theorem addPartial_other (held : Nat → Nat → Option Nat) (r idx ep r' k : Nat) (h : ¬ (r' = r ∧ k = idx)) :
+    addPartial held r idx ep r' k = held r' k := by
+  simp [addPartial, h]
+
+/-- a partial of the current epoch on `h + 1` enters the aggregator of a node that sits at `h` with the vault `V` -/
+theorem prog_aggregate' {B h c : Nat} {V : Vault} {S : Nat → Prop} {d : Node} (hu : d.up = true) (hc : d.clock = c)
+    (h1 : d.head = h) (h2 : d.vault = V) (h4 : ∀ r k x, d.held r k = some x → r ≤ h + 1)
+    (h5 : ∀ k x, d.held (h + 1) k = some x → x = V.epoch) (h6 : ∀ k, S k → d.held (h + 1) k = some V.epoch) (idx : Nat) :
+    Prog B h c V (fun k => S k ∨ k = idx) (d.aggregate B idx V.epoch (h + 1)) := by
+  have hf := aggregate_frame B d idx V.epoch (h + 1)
+  refine ⟨hf.1.trans hu, hf.2.1.trans hc, ?_⟩
+  have hnew4 : ∀ r k x, addPartial d.held (h + 1) idx V.epoch r k = some x → r ≤ h + 1 := by
+    intro r k x hx
+    by_cases hc' : r = h + 1 ∧ k = idx
+    · omega
+    · rw [addPartial_other _ _ _ _ _ _ hc'] at hx; exact h4 r k x hx
+  have hnew5 : ∀ k x, addPartial d.held (h + 1) idx V.epoch (h + 1) k = some x → x = V.epoch := by
+    intro k x hx
+    by_cases hk : k = idx
+    · subst hk
+      cases hy : d.held (h + 1) k with
+      | none => rw [addPartial_at_none _ _ _ _ hy] at hx; cases hx; rfl
+      | some y => rw [addPartial_at_some _ _ _ _ y hy] at hx; injection hx with hx'; rw [← hx']; exact h5 k y hy
+    · rw [addPartial_other _ _ _ _ _ _ (fun hc' => hk hc'.2)] at hx; exact h5 k x hx
+  have hnew6 : ∀ k, (S k ∨ k = idx) → addPartial d.held (h + 1) idx V.epoch (h + 1) k = some V.epoch := by
+    intro k hk
+    by_cases hki : k = idx
+    · subst hki
+      cases hy : d.held (h + 1) k with
+      | none => exact addPartial_at_none _ _ _ _ hy
+      | some y => rw [addPartial_at_some _ _ _ _ y hy, h5 k y hy]
+    · rw [addPartial_other _ _ _ _ _ _ (fun hc' => hki hc'.2)]
+      rcases hk with hk | hk
+      · exact h6 k hk
+      · exact absurd hk hki
+  rcases aggregate_cases B d idx V.epoch (h + 1) with ⟨hw, _⟩ | ⟨_, hv, he⟩ | ⟨_, _, hne, _⟩ | ⟨_, _, _, P, he⟩
+  · exfalso; apply hw; omega
+  · right
+    rw [he]
+    rw [h2] at hv
+    exact ⟨h1, h2, hv, hnew4, hnew5, hnew6⟩
+  · omega
+  · left
+    rw [he]
+    show h + 1 ≤ ((d.setHeld _).put (h + 1)).head
+    rw [put_next _ _ (by simp [h1])]
+    exact Nat.le_refl _
+
+theorem prog_aggregate {B h c : Nat} {V : Vault} {S : Nat → Prop} {d : Node} (hp : Prog B h c V S d) (idx : Nat) :
+    Prog B h c V (fun k => S k ∨ k = idx) (d.aggregate B idx V.epoch (h + 1)) := by
+  obtain ⟨hu, hc, hd⟩ := hp
+  rcases hd with hd | ⟨h1, h2, _, h4, h5, h6⟩
+  · have hf := aggregate_frame B d idx V.epoch (h + 1)
+    exact ⟨hf.1.trans hu, hf.2.1.trans hc, Or.inl (by have := hf.2.2; omega)⟩
+  · exact prog_aggregate' hu hc h1 h2 h4 h5 h6 idx
+
+/-- `ProcessPartialBeacon` on a message that is not above `h + 1` -/
+theorem prog_recvStep {B h c self : Nat} {V : Vault} {S : Nat → Prop} {d : Node} (hc : h < c) (hp : Prog B h c V S d)
+    (reach : Bool) (m : Msg) (hm : reach = true → m.round ≤ h + 1) :
+    Prog B h c V (fun k => S k ∨ (reach = true ∧ Adm V h self m ∧ k = m.idx)) (d.recvStep B self reach m) := by
+  rcases recvStep_cases B self reach d m with ⟨he, hne⟩ | ⟨hu, hr, ha, he⟩
+  · rw [he]
+    obtain ⟨hu, hcl, hd⟩ := hp
+    refine ⟨hu, hcl, ?_⟩
+    rcases hd with hd | ⟨h1, h2, h3, h4, h5, h6⟩
+    · exact Or.inl hd
+    · right
+      refine ⟨h1, h2, h3, h4, h5, ?_⟩
+      intro k hk
+      rcases hk with hk | ⟨hr, hadm, _⟩
+      · exact h6 k hk
+      · exfalso; exact hne ⟨hu, hr, admit_of_adm h1 h2 hcl hc hadm⟩
+  · rw [he]
+    obtain ⟨_, hep, _, hlow, _⟩ := c03_admitted_is_member self d m ha
+    have hge := hp.head_ge
+    have hrd : m.round = h + 1 := by have := hm hr; omega
+    rcases hp.2.2 with hd | ⟨h1, h2, _⟩
+    · omega
+    · rw [hrd, hep, h2]
+      exact (prog_aggregate hp m.idx).weaken (fun k hk => by
+        rcases hk with hk | ⟨_, _, hk⟩
+        · exact Or.inl hk
+        · exact Or.inr hk)
+
+theorem prog_deliver {B h c : Nat} {V : Vault} (conn : Nat → Nat → Bool) (j : Nat) (hc : h < c) :
+    ∀ (L : List Msg) (d : Node) (S : Nat → Prop), Prog B h c V S d →
+      (∀ m ∈ L, m.dst = j → conn m.src m.dst = true → m.round ≤ h + 1) →
+      Prog B h c V (fun k => S k ∨ ∃ m ∈ L, m.dst = j ∧ conn m.src j = true ∧ Adm V h j m ∧ k = m.idx)
+        (L.foldl (fun d m => if m.dst = j then d.recvStep B j (conn m.src m.dst) m else d) d) := by
+  intro L
+  induction L with
+  | nil => intro d S hp _; exact hp.weaken (fun k hk => by rcases hk with hk | ⟨m, hm, _⟩; exact hk; cases hm)
+  | cons m t ih =>
+    intro d S hp hq
+    simp only [List.foldl_cons]
+    have hq' : ∀ m' ∈ t, m'.dst = j → conn m'.src m'.dst = true → m'.round ≤ h + 1 :=
+      fun m' hm' => hq m' (by simp [hm'])
+    by_cases hj : m.dst = j
+    · simp only [hj, if_true]
+      have h1 := prog_recvStep (self := j) hc hp (conn m.src j) m (fun hr => hq m (by simp) hj (by rw [hj]; exact hr))
+      refine (ih _ _ h1 hq').weaken ?_
+      intro k hk
+      rcases hk with hk | ⟨m', hm', h1, h2, h3, h4⟩
+      · exact Or.inl (Or.inl hk)
+      · rcases List.mem_cons.mp hm' with he | hm''
+        · subst he
+          left; right
+          exact ⟨h2, h3, h4⟩
+        · right; exact ⟨m', hm'', h1, h2, h3, h4⟩
+    · simp only [hj, if_false]
+      refine (ih _ _ hp hq').weaken ?_
+      intro k hk
+      rcases hk with hk | ⟨m', hm', h1, h2, h3, h4⟩
+      · exact Or.inl hk
+      · rcases List.mem_cons.mp hm' with he | hm''
+        · subst he; exact absurd h1 hj
+        · right; exact ⟨m', hm'', h1, h2, h3, h4⟩
+
+/-- once the partial of every index of a duplicate-free list of at least `thr` indices is in, `Recover` cannot still be
+short -/
+theorem Prog.done {B h c : Nat} {V : Vault} {S : Nat → Prop} {d : Node} (hp : Prog B h c V S d) (L : List Nat)
+    (hn : L.Nodup) (hlt : ∀ k ∈ L, k < B) (hthr : V.grp.thr ≤ L.length) (hS : ∀ k ∈ L, S k) : h + 1 ≤ d.head := by
+  rcases hp.2.2 with hd | ⟨_, _, h3, _, _, h6⟩
+  · exact hd
+  · exfalso
+    have := valid_ge B d.held (h + 1) V.epoch L hn (fun k hk => ⟨hlt k hk, h6 k (hS k hk)⟩)
+    omega
+
+theorem pull_cases (s : State) (i : Nat) :
+    s.pull i = s ∨ s.pull i = s.setNode i ((s.node i).setSync 0) ∨
+    ((s.node i).up = true ∧ (s.node i).head < min (s.node i).syncTo (s.maxPeerHead i) ∧
+      ∃ v, s.pull i = s.setNode i (((s.node i).appendTo (min (s.node i).syncTo (s.maxPeerHead i))).setSync v)) := by
+  unfold State.pull
+  simp only [Gen.syncFilled]
+  by_cases hu : (s.node i).up = true
+  · by_cases h0 : (s.node i).syncTo = 0
+    · left; simp [hu, h0]
+    · by_cases hf : (s.node i).syncTo ≤ (s.node i).head
+      · right; left
+        have : 0 < (s.node i).syncTo := by omega
+        simp [hu, h0, hf, this]
+      · by_cases hm : s.maxPeerHead i ≤ (s.node i).head
+        · right; left
+          simp [hu, h0, hf, hm]
+        · right; right
+          refine ⟨hu, by omega, (if ((s.node i).appendTo (min (s.node i).syncTo (s.maxPeerHead i))).head < (s.node i).syncTo then (s.node i).syncTo else 0), ?_⟩
+          simp [hu, h0, hf, hm]
+  · left; simp [hu]
+
+theorem prog_pull {B h c : Nat} {V : Vault} {S : Nat → Prop} (s : State) (i j : Nat) (hp : Prog B h c V S (s.node j)) :
+    Prog B h c V S ((s.pull i).node j) := by
+  rcases pull_cases s i with he | he | ⟨_, hlt, v, he⟩ <;> rw [he]
+  · exact hp
+  · rw [setNode_node]
+    by_cases hj : j = i
+    · subst hj; simp only [if_true]; exact ⟨hp.1, hp.2.1, hp.2.2⟩
+    · simp only [hj, if_false]; exact hp
+  · rw [setNode_node]
+    by_cases hj : j = i
+    · subst hj
+      simp only [if_true]
+      have hf := appendTo_frame (s.node j) (min (s.node j).syncTo (s.maxPeerHead j))
+      refine ⟨hf.2.1.trans hp.1, hf.2.2.trans hp.2.1, Or.inl ?_⟩
+      have := hp.head_ge
+      show h + 1 ≤ ((s.node j).appendTo _).head
+      rw [hf.1]
+      omega
+    · simp only [hj, if_false]; exact hp
+
+theorem prog_foldl_pull {B h c : Nat} {V : Vault} {S : Nat → Prop} (j : Nat) : ∀ (l : List Nat) (s : State),
+    Prog B h c V S (s.node j) → Prog B h c V S ((l.foldl State.pull s).node j) := by
+  intro l
+  induction l with
+  | nil => intro s hp; exact hp
+  | cons a t ih => intro s hp; exact ih _ (prog_pull s a j hp)
+
+theorem pull_frame (s : State) (i : Nat) :
+    (s.pull i).n = s.n ∧ (s.pull i).nIdx = s.nIdx ∧ (s.pull i).conn = s.conn ∧ (s.pull i).msgs = s.msgs := by
+  rcases pull_cases s i with he | he | ⟨_, _, v, he⟩ <;> rw [he] <;> simp
+
+theorem foldl_pull_frame : ∀ (l : List Nat) (s : State),
+    (l.foldl State.pull s).n = s.n ∧ (l.foldl State.pull s).nIdx = s.nIdx ∧ (l.foldl State.pull s).conn = s.conn ∧
+    (l.foldl State.pull s).msgs = s.msgs := by
+  intro l
+  induction l with
+  | nil => intro s; simp
+  | cons a t ih =>
+    intro s
+    obtain ⟨h1, h2, h3, h4⟩ := ih (s.pull a)
+    obtain ⟨g1, g2, g3, g4⟩ := pull_frame s a
+    simp only [List.foldl_cons]
+    exact ⟨h1.trans g1, h2.trans g2, h3.trans g3, h4.trans g4⟩
+
+theorem pull_head_le (s : State) (i j : Nat) : (s.node j).head ≤ ((s.pull i).node j).head := by
+  rcases pull_cases s i with he | he | ⟨_, _, v, he⟩ <;> rw [he]
+  · exact Nat.le_refl _
+  · rw [setNode_node]; by_cases hj : j = i
+    · subst hj; simp
+    · simp [hj]
+  · rw [setNode_node]; by_cases hj : j = i
+    · subst hj; simp only [if_true, setSync_head]; rw [(appendTo_frame _ _).1]; omega
+    · simp [hj]
+
+theorem foldl_pull_head_le (j : Nat) : ∀ (l : List Nat) (s : State), (s.node j).head ≤ ((l.foldl State.pull s).node j).head := by
+  intro l
+  induction l with
+  | nil => intro s; exact Nat.le_refl _
+  | cons a t ih => intro s; exact Nat.le_trans (pull_head_le s a j) (ih (s.pull a))
+
+theorem bnpRound_behind {c h : Nat} (hc : h < c) : Gen.bnpRound c h = h + 1 := by
+  have : c ≠ h := by omega
+  simp [Gen.bnpRound, this]
+
+theorem bnpRound_le (c h : Nat) : Gen.bnpRound c h ≤ h + 1 := by
+  unfold Gen.bnpRound; split <;> simp_all
+
+/-- the tick of a node that sits at `h < c` with the vault `V`: its own partial goes to its aggregator, one packet to every
+other member of ITS CURRENT group -/
+theorem prog_tickStep {B h c i : Nat} {V : Vault} {d : Node} (hu : d.up = true) (hcl : d.clock = c) (hh : d.head = h) (hc : h < c)
+    (hv : d.vault = V) (hq : ∀ r k x, d.held r k = some x → r ≤ h + 1) (hq2 : ∀ k x, d.held (h + 1) k = some x → x = V.epoch) :
+    Prog B h c V (fun k => k = V.index) (d.tickStep B i).1 ∧
+    (d.tickStep B i).2 = (d.recipients i).map (fun j => ⟨i, V.index, V.epoch, h + 1, j⟩) := by
+  unfold Node.tickStep
+  simp only [hu, Bool.not_true, Bool.false_eq_true, if_false, Node.broadcast, hcl, hh, bnpRound_behind hc, setTick_vault, hv]
+  have h1 : Prog B h c V (fun k => k = V.index) ((d.setTick c).aggregate B V.index V.epoch (h + 1)) :=
+    (prog_aggregate' (S := fun _ => False) (d := d.setTick c) hu hcl hh hv hq hq2 (fun _ hk => absurd hk id) V.index).weaken
+      (fun k hk => Or.inr hk)
+  have hrec : (d.setTick c).recipients i = d.recipients i := rfl
+  split
+  · exact ⟨⟨h1.1, h1.2.1, h1.2.2⟩, by rw [hrec]⟩
+  · exact ⟨h1, by rw [hrec]⟩
+
+theorem tickStep_msgs {B i : Nat} {d : Node} {m : Msg} (hm : m ∈ (d.tickStep B i).2) :
+    d.up = true ∧ m.src = i ∧ m.round = Gen.bnpRound d.clock d.head := by
+  unfold Node.tickStep at hm
+  by_cases hu : d.up = true
+  · simp only [hu, Bool.not_true, Bool.false_eq_true, if_false, Node.broadcast] at hm
+    have : m ∈ ((d.setTick d.clock).recipients i).map (fun j => (⟨i, (d.setTick d.clock).vault.index, (d.setTick d.clock).vault.epoch, Gen.bnpRound d.clock d.head, j⟩ : Msg)) := by
+      split at hm <;> exact hm
+    obtain ⟨j, _, rfl⟩ := List.mem_map.mp this
+    exact ⟨hu, rfl, rfl⟩
+  · simp [hu] at hm
+
+/-- the healthy side after (or at) a transition: `U` are running nodes, pairwise connected, that all hold the vault of
+group `G` / epoch `e` (node `i` with share index `ix i`, a member of `G`), the indices of `G` are pairwise distinct, and
+no running node that can reach `U` is ahead of `h`. Nothing is assumed about the previous group, its threshold, how many
+of `U` were in it, or about the other nodes (leavers that keep signing, nodes still on the old vault). -/
+structure Side (s : State) (U : List Nat) (G : Grp) (e : Nat) (ix : Nat → Nat) (h : Nat) : Prop where
+  nodup : U.Nodup
+  lt : ∀ i ∈ U, i < s.n
+  up : ∀ i ∈ U, (s.node i).up = true
+  conn : ∀ i ∈ U, ∀ j ∈ U, s.conn i j = true
+  vault : ∀ i ∈ U, (s.node i).vault = ⟨G, e, ix i⟩
+  member : ∀ i ∈ U, (⟨i, ix i⟩ : Member) ∈ G.members
+  idxLt : ∀ i ∈ U, ix i < s.nIdx
+  idxNodup : (G.members.map (·.index)).Nodup
+  behind : ∀ k, k < s.n → (s.node k).up = true → (∃ j ∈ U, s.conn k j = true) → (s.node k).head ≤ h
+
+/-- nothing for a round above `h + 1` is in flight towards `U` or cached in `U`, and what `U` caches for `h + 1` is of the
+current epoch -/
+def Quiet (s : State) (U : List Nat) (h e : Nat) : Prop :=
+  (∀ m ∈ s.msgs, m.dst ∈ U → s.conn m.src m.dst = true → m.round ≤ h + 1) ∧
+  (∀ j ∈ U, ∀ r k x, (s.node j).held r k = some x → r ≤ h + 1) ∧
+  (∀ j ∈ U, ∀ k x, (s.node j).held (h + 1) k = some x → x = e)
+
+/-- the static part of a side: who is in it and with which index of `G` -/
+structure Frame (U : List Nat) (G : Grp) (ix : Nat → Nat) (B : Nat) : Prop where
+  nodup : U.Nodup
+  member : ∀ i ∈ U, (⟨i, ix i⟩ : Member) ∈ G.members
+  idxLt : ∀ i ∈ U, ix i < B
+  idxNodup : (G.members.map (·.index)).Nodup
+
+theorem Side.frame {s : State} {U : List Nat} {G : Grp} {e : Nat} {ix : Nat → Nat} {h : Nat} (hU : Side s U G e ix h) :
+    Frame U G ix s.nIdx := ⟨hU.nodup, hU.member, hU.idxLt, hU.idxNodup⟩
+
+theorem ix_inj {U : List Nat} {G : Grp} {ix : Nat → Nat} {B : Nat} (hU : Frame U G ix B)
+    {i j : Nat} (hi : i ∈ U) (hj : j ∈ U) (he : ix i = ix j) : i = j := by
+  have := nodup_map_inj (·.index) G.members hU.idxNodup ⟨i, ix i⟩ (hU.member i hi) ⟨j, ix j⟩ (hU.member j hj) he
+  exact congrArg Member.node this
+
+theorem nodup_map_ix {U : List Nat} {G : Grp} {ix : Nat → Nat} {B : Nat} (hU : Frame U G ix B) :
+    ∀ (L : List Nat), L.Nodup → (∀ i ∈ L, i ∈ U) → (L.map ix).Nodup := by
+  intro L
+  induction L with
+  | nil => intro _ _; simp
+  | cons a t ih =>
+    intro hn hs
+    have hn' := List.nodup_cons.mp hn
+    simp only [List.map_cons, List.nodup_cons, List.mem_map, not_exists, not_and]
+    refine ⟨fun x hx he => ?_, ih hn'.2 (fun i hi => hs i (by simp [hi]))⟩
+    have : x = a := ix_inj hU (hs x (by simp [hx])) (hs a (by simp)) he
+    exact hn'.1 (this ▸ hx)
+
+/-- the settle phase of a sub-round in which every member of the healthy side has just broadcast its partial on `h + 1` -/
+theorem settle_progress (s : State) (U : List Nat) (G : Grp) (e : Nat) (ix : Nat → Nat) (h c : Nat) (hU : Frame U G ix s.nIdx)
+    (hconn : ∀ i ∈ U, ∀ j ∈ U, s.conn i j = true)
+    (hthr : G.thr ≤ U.length) (hc : h < c) (j : Nat) (hj : j ∈ U)
+    (hp : Prog s.nIdx h c ⟨G, e, ix j⟩ (fun k => k = ix j) (s.node j))
+    (hq : ∀ m ∈ s.msgs, m.dst = j → s.conn m.src m.dst = true → m.round ≤ h + 1)
+    (hm : ∀ i ∈ U, i ≠ j → (⟨i, ix i, e, h + 1, j⟩ : Msg) ∈ s.msgs) :
+    h + 1 ≤ (s.settle.node j).head := by
+  have hB := prog_foldl_pull j (List.range s.n) s hp
+  obtain ⟨b1, b2, b3, b4⟩ := foldl_pull_frame (List.range s.n) s
+  obtain ⟨c1, c2, c3, c4⟩ := foldl_recv j ((List.range s.n).foldl State.pull s).msgs { ((List.range s.n).foldl State.pull s) with msgs := [] }
+  have hC : h + 1 ≤ (((List.range s.n).foldl State.pull s).deliverAll.node j).head := by
+    unfold State.deliverAll
+    rw [c4]
+    simp only [b2, b3, b4]
+    have hD := prog_deliver (B := s.nIdx) (V := ⟨G, e, ix j⟩) s.conn j hc s.msgs _ _ hB hq
+    refine hD.done (U.map ix) (nodup_map_ix hU U hU.nodup (fun _ hi => hi)) ?_ (by simpa using hthr) ?_
+    · intro k hk
+      obtain ⟨i, hi, rfl⟩ := List.mem_map.mp hk
+      exact hU.idxLt i hi
+    · intro k hk
+      obtain ⟨i, hi, rfl⟩ := List.mem_map.mp hk
+      by_cases hij : i = j
+      · exact Or.inl (by rw [hij])
+      · right
+        refine ⟨⟨i, ix i, e, h + 1, j⟩, hm i hi hij, rfl, hconn i hi j hj, ⟨rfl, ⟨⟨i, ix i⟩, ?_, hij⟩, rfl, ?_⟩, rfl⟩
+        · exact node?_of_mem G hU.idxNodup ⟨i, ix i⟩ (hU.member i hi)
+        · exact fun he => hij (ix_inj hU hi hj he)
+  have hfin := foldl_pull_head_le j (List.range ((List.range s.n).foldl State.pull s).deliverAll.n) ((List.range s.n).foldl State.pull s).deliverAll
+  exact Nat.le_trans hC hfin
+
+/-- **Progress across a resharing.** In a fair round, let `U` be running, pairwise connected nodes that hold the vault of the
+new group `G` (epoch `e`) — remainers that switched, whenever they were told, and joiners alike — with `|U| ≥ G.thr`, all at
+head `h` below the round `c` their clocks are about to show, nobody who can reach them ahead of `h`. Then every member of
+`U` stores round `h + 1`: the transition round when `h = transition − 1`, and every later due round. The old threshold,
+the number of remainers (possibly fewer than the old threshold), a raised or lowered threshold, holes in the indices of
+`G` and what non-members keep sending play no role. -/
+theorem c07_reshare_step_progress (s : State) (U : List Nat) (G : Grp) (e : Nat) (ix : Nat → Nat) (h c : Nat)
+    (hU : Side s U G e ix h) (hthr : G.thr ≤ U.length)
+    (hhead : ∀ i ∈ U, (s.node i).head = h) (hclk : ∀ i ∈ U, (s.node i).clock + 1 = c) (hc : h < c)
+    (hq : Quiet s U h e) :
+    ∀ j ∈ U, h + 1 ≤ (s.fairTick.node j).head := by
+  intro j hj
+  obtain ⟨a1, a2, a3, a4, a5⟩ := foldl_act (fun B i => Node.tickStep B i) (List.range s.advance.n) s.advance List.nodup_range
+  have e0 : ∀ k, (s.advance.node k).up = (s.node k).up ∧ (s.advance.node k).head = (s.node k).head ∧
+      (s.advance.node k).clock = (s.node k).clock + 1 ∧ (s.advance.node k).held = (s.node k).held ∧
+      (s.advance.node k).vault = (s.node k).vault := fun k => ⟨rfl, rfl, rfl, rfl, rfl⟩
+  have hstep : ∀ i ∈ U, Prog s.nIdx h c ⟨G, e, ix i⟩ (fun k => k = ix i) (Node.tickStep s.nIdx i (s.advance.node i)).1 ∧
+      (Node.tickStep s.nIdx i (s.advance.node i)).2 = ((s.advance.node i).recipients i).map (fun j => ⟨i, ix i, e, h + 1, j⟩) := by
+    intro i hi
+    exact prog_tickStep (V := ⟨G, e, ix i⟩) ((e0 i).1.trans (hU.up i hi)) ((e0 i).2.2.1.trans (hclk i hi)) ((e0 i).2.1.trans (hhead i hi)) hc
+      ((e0 i).2.2.2.2.trans (hU.vault i hi))
+      (fun r k x hk => hq.2.1 i hi r k x (by rw [← (e0 i).2.2.2.1]; exact hk))
+      (fun k x hk => hq.2.2 i hi k x (by rw [← (e0 i).2.2.2.1]; exact hk))
+  have hn : (s.advance.forAll State.tick).n = s.n := a1
+  have hni : (s.advance.forAll State.tick).nIdx = s.nIdx := a2
+  have hcn : (s.advance.forAll State.tick).conn = s.conn := a3
+  have hres := settle_progress (s.advance.forAll State.tick) U G e ix h c (by rw [hni]; exact hU.frame)
+    (fun i hi j hj => by rw [hcn]; exact hU.conn i hi j hj) hthr hc j hj ?_ ?_ ?_
+  · exact hres
+  · -- node j after its tick
+    rw [hni]
+    have := a4 j
+    have hlt : j ∈ List.range s.advance.n := List.mem_range.mpr (hU.lt j hj)
+    simp only [hlt, if_true] at this
+    show Prog s.nIdx h c ⟨G, e, ix j⟩ (fun k => k = ix j) (((List.range s.advance.n).foldl State.tick s.advance).node j)
+    rw [show ((List.range s.advance.n).foldl State.tick s.advance).node j = _ from this]
+    exact (hstep j hj).1
+  · -- nothing deliverable to j is above h + 1
+    intro m hm hdst hconn
+    rw [hcn] at hconn
+    have hm' : m ∈ s.advance.msgs ++ (List.range s.advance.n).flatMap (fun i => (Node.tickStep s.advance.nIdx i (s.advance.node i)).2) := by
+      rw [← a5]; exact hm
+    rcases List.mem_append.mp hm' with h1 | h1
+    · exact hq.1 m h1 (hdst ▸ hj) hconn
+    · obtain ⟨i, hi, hmi⟩ := List.mem_flatMap.mp h1
+      have hts := tickStep_msgs hmi
+      have hbe : (s.node i).head ≤ h := hU.behind i (List.mem_range.mp hi) ((e0 i).1.symm.trans hts.1)
+        ⟨j, hj, by rw [← hts.2.1, ← hdst]; exact hconn⟩
+      rw [hts.2.2]
+      have := bnpRound_le (s.advance.node i).clock (s.advance.node i).head
+      have h2 : (s.advance.node i).head = (s.node i).head := (e0 i).2.1
+      omega
+  · -- every other member's partial on h + 1 is in flight towards j
+    intro i hi hij
+    have : (⟨i, ix i, e, h + 1, j⟩ : Msg) ∈ s.advance.msgs ++ (List.range s.advance.n).flatMap (fun i => (Node.tickStep s.advance.nIdx i (s.advance.node i)).2) := by
+      apply List.mem_append.mpr; right
+      apply List.mem_flatMap.mpr
+      refine ⟨i, List.mem_range.mpr (hU.lt i hi), ?_⟩
+      show (⟨i, ix i, e, h + 1, j⟩ : Msg) ∈ (Node.tickStep s.nIdx i (s.advance.node i)).2
+      rw [(hstep i hi).2]
+      apply List.mem_map.mpr
+      refine ⟨j, ?_, rfl⟩
+      unfold Node.recipients
+      rw [(e0 i).2.2.2.2, hU.vault i hi]
+      apply List.mem_map.mpr
+      refine ⟨⟨j, ix j⟩, ?_, rfl⟩
+      apply List.mem_filter.mpr
+      exact ⟨hU.member j hj, by simpa using fun he => hij he.symm⟩
+    rw [← a5] at this
+    exact this
+
 /-! ### the late registration: kernel-checked witness -/
 
 def exG : Grp := ⟨[⟨0, 0⟩, ⟨1, 1⟩], 2⟩
